@@ -165,6 +165,11 @@ def gen():
     bytes_via_accessor = ("dtype.bytes_ * tupleSize_" not in d) and ("dtype.bytes_ * size" not in d) and \
         d.count("dtype.bytes() * tupleSize_") == 2 and ("dtype.bytes() * size" in d)
 
+    m = re.search(r"void dtypeTuple_t::addFlatDtypes\(.*?\n  \}", d, re.S)
+    if not m:
+        raise TranslateError("dtypeTuple_t::addFlatDtypes not found")
+    unknown_extent_one = bool(re.search(r"\(size < 0\) \? 1 : size", m.group(0)))
+
     # ---- kernel metadata keys
     akeys = re.findall(r"j\[\"(\w+)\"\]\s*=", k)
     if akeys != ["const", "ptr", "dtype", "name", "name"] or "j[\"arguments\"]" not in k:
@@ -207,6 +212,8 @@ def gen():
            "def fromJsonRestoresBytes : Bool := %s" % ("true" if fromjson_recomputes else "false"),
            "/-- addField() and tuple() use dtype.bytes() (not the bytes_ member of a reference) -/",
            "def bytesViaAccessor : Bool := %s" % ("true" if bytes_via_accessor else "false"),
+           "/-- dtypeTuple_t::addFlatDtypes flattens one element for a tuple of unknown size (size < 0) -/",
+           "def unknownExtentFlattensOne : Bool := %s" % ("true" if unknown_extent_one else "false"),
            "/-- parser_t::setSourceMetadata marks every @kernel's metadata initialized -/",
            "def parserMarksInitialized : Bool := %s" % ("true" if parser_marks_init else "false"),
            "/-- kernelMetadata_t::fromJson marks the metadata initialized -/",
